@@ -165,6 +165,60 @@ func H_C16_args() {
 	verif.Reach("end")
 }
 
+// H_C16_many_args: argument accounting does not depend on how many
+// arguments there are: templates using all of $1..$n, or all but one (the
+// first, the last, one in the middle), for n around every word size.
+func H_C16_many_args() {
+	ns := []int{1, 2, 31, 32, 33, 63, 64, 65, 66, 128, 129, 257}
+	n := ns[verif.Choose("n", len(ns))]
+	skip := verif.Choose("skip", 4) // 0 none, 1 first, 2 last, 3 middle
+	unused := []int{0, 1, n, (n + 1) / 2}[skip]
+	tpl, want := "SELECT ", "SELECT "
+	args := make([]any, n)
+	for i := 1; i <= n; i++ {
+		args[i-1] = int64(i)
+		if i == unused {
+			continue
+		}
+		tpl += "$" + itoa(i) + ", "
+		want += " " + itoa(i) + " , "
+	}
+	tpl += "0 FROM dual"
+	want += "0 FROM dual"
+	var out string
+	var err error
+	panicked := false
+	func() {
+		defer func() {
+			if recover() != nil {
+				panicked = true
+			}
+		}()
+		out, err = SanitizeSQL(tpl, args...)
+	}()
+	verif.Assert(!panicked, "no-panic")
+	if unused == 0 {
+		verif.Assert(err == nil, "all-used-is-accepted")
+		if err == nil {
+			verif.Assert(squeeze(out) == squeeze(want), "every-placeholder-replaced-by-its-argument")
+		}
+	} else {
+		verif.Assert(err != nil, "unused-argument-reported")
+	}
+	verif.Reach("end")
+}
+
+// squeeze drops blanks (the sanitizer pads numbers with blanks).
+func squeeze(s string) string {
+	b := make([]byte, 0, len(s))
+	for i := 0; i < len(s); i++ {
+		if s[i] != ' ' {
+			b = append(b, s[i])
+		}
+	}
+	return string(b)
+}
+
 // H_C16_template: `$1` inside string literals, quoted identifiers and
 // comments (as the library's own MySQL tokenizer delimits them) is left
 // alone; elsewhere it is replaced by the quoted argument.
@@ -315,4 +369,15 @@ func H_C16_sequence() {
 		verif.Assert(err == nil && out == want, "valid-call-after-rejected-one")
 	}
 	verif.Reach("end")
+}
+
+func itoa(n int) string {
+	if n == 0 {
+		return "0"
+	}
+	s := ""
+	for ; n > 0; n /= 10 {
+		s = string(rune('0'+n%10)) + s
+	}
+	return s
 }
